@@ -33,7 +33,8 @@ def run(res):
             proxy.append((c, "{| pc_attached := %s; pc_dflt := %s; pc_required := %s; pc_shape := %s; pc_impl_val := %d; pc_impl_err := %s; pc_invoked := %d; pc_err_nil := %s; pc_val := %d |}" % (
                 O(c["attached"], slist), slist(c["dflt"]), S(c["required"]), shape, ival, B(fail), c["invoked"], B(c["err_nil"]), c["val"])))
         elif k == "http":
-            table = [("tokA", ["read", "write"]), ("tokE", []), ("tokNil", []), ("", ["admin"]), (" tokA", ["read"])]
+            table = [("tokA", ["read", "write"]), ("tokE", []), ("tokNil", []), ("", ["admin"]), (" tokA", ["read"]),
+                     ("read-token", ["read"]), ("eyJhbGci", ["write"]), ("Bearer", ["admin"]), ("d-token", ["admin", "sign"]), ("yJhbGci", ["admin"])]
             tt = L(["(%s, Some %s)" % (S(a), slist(b)) for a, b in table])
             http.append((c, "{| hc_hdr := %s; hc_query := %s; hc_verify := %s; hc_status := %d; hc_next := %d; hc_attached := %s; hc_verify_calls := %s |}" % (
                 S(c["hdr"] or ""), S(c["query"] or ""), tt, c["status"], c["next_calls"], O(c["attached"], slist), slist(c["verify_calls"]))))
@@ -86,7 +87,8 @@ def direct_oracle(c):
             if c["err_nil"] == fail:
                 return "implementation result not passed through"
     if c["kind"] == "http":
-        table = {"tokA": ["read", "write"], "tokE": [], "tokNil": [], "": ["admin"], " tokA": ["read"]}
+        table = {"tokA": ["read", "write"], "tokE": [], "tokNil": [], "": ["admin"], " tokA": ["read"],
+                 "read-token": ["read"], "eyJhbGci": ["write"], "Bearer": ["admin"], "d-token": ["admin", "sign"], "yJhbGci": ["admin"]}
         hdr, q = c["hdr"] or "", c["query"] or ""
         tok = hdr if hdr else ("Bearer " + q if q else "")
         if tok == "":
